@@ -179,7 +179,9 @@ func (b *byzActor) onCommitWait(n *node) {
 // EARLIER round r' < r of this height has +2/3 prevotes for another block A, hand that stale polka to the
 // locked node (replayed honest prevotes + fresh byzantine ones). A correct node keeps its lock.
 func (b *byzActor) onLock(n *node, hrs cstypes.HRS) {
-	if !b.active() || b.style == 1 || !b.once("stale", n.id, hrs.Height, hrs.Round) {
+	// (also in the "mostly silent" style: a validator that withholds its prevotes is the one that creates
+	// hidden polkas, i.e. rounds in which the honest prevotes for a block need only its vote to reach +2/3)
+	if !b.active() || !b.once("stale", n.id, hrs.Height, hrs.Round) {
 		return
 	}
 	s := b.s
